@@ -268,26 +268,26 @@ def run(ck):
                 for trial in range(3):
                     deg = deg_max if trial == 0 else rng.randint(0, deg_max)
                     c = [F(rng.randint(-5, 5), rng.randint(1, 3)) for _ in range(deg + 1)]
-                    # impose boundary data: values (dirichlet) or first derivative (neumann) equal vl / vr
-                    # by adding a correction polynomial of degree <= 1 (dirichlet both) - solve generally:
-                    # we instead *choose* the polynomial and set val to match it, re-assembling with those vals
+                    # mesh width: 1, or (last trial) a dyadic width != 1 so that the dx scaling of the matrix AND of the boundary
+                    # vector (Dirichlet: val/dx^d-weighted, Neumann: val*dx/dx^d-weighted) is part of the oracle
+                    dxo = F(1) if trial < 2 else rng.choice([F(1, 2), F(1, 4), F(2)])
+                    xl, xr = F(0), dxo * (size + 1)
+                    # we *choose* the polynomial and set val to match it, re-assembling with those vals
                     pl = poly_eval(c, xl) if bcl == 'dirichlet' else poly_eval(poly_der(c, 1), xl)
                     pr = poly_eval(c, xr) if bcr == 'dirichlet' else poly_eval(poly_der(c, 1), xr)
-                    # vals must be floats: scale polynomial so boundary data are dyadic -> use val as float of exact fraction
-                    # choose coefficients with denominators making pl, pr exactly representable is not guaranteed; use tolerance
-                    A2, b2 = ph.get_finite_difference_matrix(derivative=der, order=order, dx=1.0, size=size, dim=1, **kw,
+                    A2, b2 = ph.get_finite_difference_matrix(derivative=der, order=order, dx=float(dxo), size=size, dim=1, **kw,
                                                              bc=bc, bc_params=[{'val': float(pl)}, {'val': float(pr)}])
                     D2 = np.asarray(A2.todense(), dtype=float)
                     pd = poly_der(c, der)
                     for r in range(size):
-                        lhs = sum(F(float(D2[r, j])) * poly_eval(c, F(j + 1)) for j in range(size) if D2[r, j] != 0.0) + F(float(b2[r]))
-                        rhs = poly_eval(pd, F(r + 1))
-                        scale = sum(abs(F(float(D2[r, j]))) * abs(poly_eval(c, F(j + 1))) for j in range(size)) + abs(F(float(b2[r]))) + 1
+                        lhs = sum(F(float(D2[r, j])) * poly_eval(c, dxo * (j + 1)) for j in range(size) if D2[r, j] != 0.0) + F(float(b2[r]))
+                        rhs = poly_eval(pd, dxo * (r + 1))
+                        scale = sum(abs(F(float(D2[r, j]))) * abs(poly_eval(c, dxo * (j + 1))) for j in range(size)) + abs(F(float(b2[r]))) + 1
                         rel = abs(lhs - rhs) / scale
                         worst_or = max(worst_or, rel)
                         if rel > ORACLE_RTOL:
-                            ck.violation('matrix + boundary vector do not reproduce the derivative of a polynomial of degree %d at row %d' % (deg, r),
-                                         {'call': 'get_finite_difference_matrix', 'case': lab, 'poly_coeffs': [str(x) for x in c], 'row': r,
+                            ck.violation('matrix + boundary vector do not reproduce the derivative of a polynomial of degree %d at row %d (dx = %s)' % (deg, r, dxo),
+                                         {'call': 'get_finite_difference_matrix', 'case': lab, 'poly_coeffs': [str(x) for x in c], 'row': r, 'dx': float(dxo),
                                           'lhs': float(lhs), 'rhs': float(rhs), 'vals': [float(pl), float(pr)]},
                                          match={'kind': 'closure-oracle', 'bc': str(bc)})
                             break
